@@ -4,6 +4,7 @@
 from __future__ import annotations
 
 import json
+from dataclasses import fields as getfields
 from pathlib import Path, PosixPath, WindowsPath
 from typing import Any, Callable
 
@@ -102,12 +103,13 @@ def _load_expression(expression: dict) -> expressions.Expr:
     # in `a.b.c`, `c` links to `b` which links to `a`.
     # In `(a or b).c` however, `c` does not link to `(a or b)`,
     # as `(a or b)` is not a name and wouldn't allow to resolve `c`.
+    # Attributes of string literals are linked to the `str` class, like when building expressions.
     if cls is expressions.ExprAttribute:
-        previous = None
+        previous: expressions.ExprName | str | None = "str" if isinstance(expr.first, str) else None
         for value in expr.values:
-            if previous is not None:
-                value.parent = previous
             if isinstance(value, expressions.ExprName):
+                if previous is not None:
+                    value.parent = previous
                 previous = value
     return expr
 
@@ -123,13 +125,19 @@ def _load_parameter(obj_dict: dict[str, Any]) -> Parameter:
 
 
 def _attach_parent_to_expr(expr: expressions.Expr | str | None, parent: Module | Class) -> None:
-    if not isinstance(expr, expressions.Expr):
-        return
-    for elem in expr:
-        if isinstance(elem, expressions.ExprName):
-            elem.parent = parent
-        elif isinstance(elem, expressions.ExprAttribute) and isinstance(elem.first, expressions.ExprName):
-            elem.first.parent = parent
+    # Every name must be reattached to the Griffe object in whose scope it is resolved,
+    # wherever it appears in the expression tree (subscripts, tuples, calls, lambdas, etc.).
+    # In dotted chains like `a.b.c`, only the first name is resolved in this scope,
+    # the next ones are already linked to their predecessor.
+    if isinstance(expr, expressions.ExprName):
+        expr.parent = parent
+    elif isinstance(expr, expressions.ExprAttribute):
+        _attach_parent_to_expr(expr.first, parent)
+    elif isinstance(expr, expressions.Expr):
+        for field in getfields(expr):
+            value = getattr(expr, field.name)
+            for elem in value if isinstance(value, (list, tuple)) else (value,):
+                _attach_parent_to_expr(elem, parent)
 
 
 def _attach_parent_to_exprs(obj: Class | Function | Attribute, parent: Module | Class) -> None:
@@ -141,6 +149,8 @@ def _attach_parent_to_exprs(obj: Class | Function | Attribute, parent: Module | 
             _attach_parent_to_expr(obj.docstring.value, parent)
         for decorator in obj.decorators:
             _attach_parent_to_expr(decorator.value, parent)
+        for base in obj.bases:
+            _attach_parent_to_expr(base, parent)
     elif isinstance(obj, Function):
         if obj.docstring:
             _attach_parent_to_expr(obj.docstring.value, parent)
@@ -154,6 +164,7 @@ def _attach_parent_to_exprs(obj: Class | Function | Attribute, parent: Module | 
         if obj.docstring:
             _attach_parent_to_expr(obj.docstring.value, parent)
         _attach_parent_to_expr(obj.value, parent)
+        _attach_parent_to_expr(obj.annotation, parent)
 
 
 def _load_module(obj_dict: dict[str, Any]) -> Module:
